@@ -142,6 +142,25 @@ def concretize(ev, pre):
     return list(ev)
 
 
+NET_CMD = ('git clone', 'git fetch', 'git push', 'git pull',
+           'git remote update', 'git ls-remote')
+
+
+def net_commands(obs):
+    """Indices of the commands of a job that talk to the remote."""
+    return [i for i, rec in enumerate(obs.get('cmds', []))
+            if rec['cmd'].startswith(NET_CMD)]
+
+
+def netfail_hook(target, hit):
+    def hook(idx, command, kwargs, rec):
+        if idx != target:
+            return None
+        hit['cmd'] = command
+        return 'false # ' + command.replace('\n', ' ')
+    return hook
+
+
 def c02_plan(driver, w, snap, ev, res):
     """Deviations of one transition: every crash boundary, every single ref
     of every push.  Also computes the reference outcome."""
@@ -163,6 +182,9 @@ def c02_plan(driver, w, snap, ev, res):
             for r in changed:
                 if ['reject', r] not in devs:
                     devs.append(['reject', r])
+    if driver.spec.get('netfail', True):
+        # environment answer: one command that talks to the remote fails
+        devs += [['netfail', i] for i in net_commands(obs)]
     # reference: the uninterrupted run, the event being re-delivered (the
     # delivery is at-least-once) until the destinations no longer move
     ref_sts = []
@@ -193,12 +215,15 @@ def c02_run(driver, w, snap, ev, dev, ctx):
             if idx >= n:
                 raise Crash()
         w.mut_hook = hook
+    elif dev[0] == 'netfail':
+        w.cmd_hook = netfail_hook(dev[1], {})
     else:
         install_reject(w, dev[1])
     try:
         o = E.apply(w, ev)
     finally:
         w.mut_hook = None
+        w.cmd_hook = None
         remove_reject(w)
     stats['c02_deviations'] = 1
     stats['c02_%s' % dev[0]] = 1
@@ -271,6 +296,8 @@ def c08_plan(driver, w, snap, ev, res):
     # environment fault: a destination branch was created since the last
     # refresh of the clone cache and the refresh fails in this job
     devs.append(['stale_cache', 0])
+    # ... or any one command that talks to the remote fails
+    devs += [['netfail', i] for i in net_commands(obs)]
     out['devs'] = devs
     out['ctx'] = {'pre_pending': res['pre']['pending'],
                   'cev': concretize(ev, res['pre'])}
@@ -299,7 +326,12 @@ def c08_run(driver, w, snap, ev, dev, ctx):
         w.set_ref(NEW_DEST, base)
         left[NEW_DEST] = base
 
+    nethit = {}
+    nethook = netfail_hook(dev[1], nethit)
+
     def hook(idx, command, kwargs, rec):
+        if dev[0] == 'netfail':
+            return nethook(idx, command, kwargs, rec)
         if dev[0] == 'stale_cache':
             if command.startswith('git fetch --prune') and \
                     '.bert-e' in str(kwargs.get('cwd', '')):
@@ -343,14 +375,17 @@ def c08_run(driver, w, snap, ev, dev, ctx):
         w.drop_cache()
         if not counter['n']:
             left = {}
-    if not left:
+    if not left and not nethit:
         out['stats']['c08_action_not_placed'] = 1
         return out
-    for fp, msg in M.c08_judge(w, pre, ev, o, post, left=left):
+    for fp, msg in M.c08_judge(w, pre, ev, o, post, left=left or None):
         out['violations'].append({
             'property': 'C08', 'fingerprint': fp + ':' + dev[0],
-            'msg': 'third party %s before push #%d: %s (job status %s)' % (
-                dev[0] + (' ' + dev[2] if len(dev) > 2 else ''), dev[1],
+            'msg': '%s: %s (job status %s)' % (
+                'command #%d failed (%s)' % (dev[1], nethit.get('cmd', '')[:50])
+                if dev[0] == 'netfail' else
+                'third party %s before push #%d' % (
+                    dev[0] + (' ' + dev[2] if len(dev) > 2 else ''), dev[1]),
                 msg, o.get('status'))})
     return out
 
